@@ -35,6 +35,7 @@ MAP = {
     "stops the timers of all": ["C17", "C16"],
     "ignores outdated ACKs": ["C16"],
     "Wire keeps each entry": ["C10"],
+    "WFQ sums the active weights": ["C03"],
 }
 
 
